@@ -124,6 +124,10 @@ func c12Scenario(res *ev.Result, unit string, seed uint64, pinned bool) {
 			}
 		}
 		burstNo++
+		if pinned && burstNo%6 == 0 {
+			// bound the harness's own garbage (dumps, histories); the pools refill at once
+			runtime.GC()
+		}
 	}
 	// twin runs: each per-tree history alone
 	for i, mk := range makers {
